@@ -177,6 +177,27 @@ pub fn load(dir: &Path, tier: Tier) -> Result<Catalogue, String> {
         }
     }
 
+    // runs of blanks with one unusual character in them (control characters, Unicode spaces,
+    // BOM, NEL ...), in several contexts: anything that scans whitespace in blocks or by class
+    let mut n_blank = 0;
+    let odd: [&str; 18] = [
+        "\0", "\u{1}", "\u{8}", "\u{b}", "\u{c}", "\u{e}", "\u{1a}", "\u{1f}", "\u{7f}", "\u{85}",
+        "\u{a0}", "\u{2003}", "\u{3000}", "\u{feff}", "\t", "\r", "\u{2028}", "\u{1680}",
+    ];
+    for (ci, c) in odd.iter().enumerate() {
+        for (xi, (pre, post)) in [("x", "y;"), ("%let a", "=1;"), ("%m(", "a)"), ("%put", "b;"), ("%if 1", "%then x;")]
+            .iter()
+            .enumerate()
+        {
+            for (a, b) in [(1usize, 16usize), (16, 1), (17, 17), (3, 40), (0, 20), (33, 0)] {
+                let t = format!("{pre}{}{c}{}{post}", " ".repeat(a), " ".repeat(b));
+                if push(&mut sources, format!("b{ci:02}{xi}:{a}-{b}"), t) {
+                    n_blank += 1;
+                }
+            }
+        }
+    }
+
     // near misses of every keyword: a cache with an imprecise key (truncated, hashed, case- or
     // length-only) confuses these with the keyword once both have been seen in one process
     let mut n_near = 0;
@@ -424,6 +445,7 @@ pub fn load(dir: &Path, tier: Tier) -> Result<Catalogue, String> {
             ("base+curated", n_first),
             ("dense", n_dense),
             ("nested+repeated", n_nested),
+            ("blank-runs", n_blank),
             ("keyword-near-misses", n_near),
             ("unicodified", n_uni),
             ("prefixes", n_prefix),
@@ -461,6 +483,7 @@ fn random_slice(rng: &mut Rng, s: &str) -> (usize, usize) {
 const UNI_CHARS: &[&str] = &["é", "ü", "ж", "日", "🔥", "\u{a0}", "ß", "Ω", "\u{2028}", "ǅ"];
 
 const MUT_CHARS: &[&str] = &[
+    "\0", "\u{1}", "\u{1a}", "\u{7f}", "\u{b}", "\u{c}", "\u{85}", "\u{2028}", "                ",
     "+", "-", "d", "b", "n", "t", "dt", "x", "0", "9", "f", "_", "$", "#", "@", "`", "^", "~", "!", "|", "<", ">", "{", "}", "[", "]", ":", "?", "\t", "\r\n",
     ";", "%", "&", "(", ")", ",", "=", "'", "\"", "*", "/", ".", "\n", " ", "%*", "/*", "*/",
     "%(", "%)", "%str(", "%do", "%end", "%then", "%m", "&v", "é", "\u{feff}", "4", "x", "e",
